@@ -89,6 +89,9 @@ func (s *Schema) Get(name string) *TypeDef {
 	return s.by[name]
 }
 
+// Reindex forgets the name index (after Types was changed from outside the package).
+func (s *Schema) Reindex() { s.by = nil }
+
 func (s *Schema) add(t *TypeDef) *TypeDef {
 	s.Types = append(s.Types, t)
 	s.by = nil
